@@ -3,6 +3,7 @@ package props
 import (
 	"bytes"
 	"crypto/rand"
+	"encoding/binary"
 	"encoding/hex"
 	"fmt"
 	"io"
@@ -260,6 +261,70 @@ func sqrtf(x float64) float64 {
 		z = (z + x/z) / 2
 	}
 	return z
+}
+
+// TestC18_GridRelated: CONSECUTIVE identifiers whose 16 random bytes are related: same high half, same low half,
+// same xor / sum of the halves, or equal under "hi*K op lo" / "lo*K op hi" for every large integer constant K found
+// in the library's sources (what a cheap fingerprint of a UUID looks like). Related is not equal: every identifier
+// is still exactly the bytes that were drawn.
+func TestC18_GridRelated(t *testing.T) {
+	be := binary.BigEndian
+	fix := func(b []byte) []byte { // what NewV4 makes of 16 random bytes
+		u := append([]byte{}, b...)
+		u[6] = (u[6] & 0x0f) | 0x40
+		u[8] = (u[8] & 0x3f) | 0x80
+		return u
+	}
+	u1 := fix([]byte{0x3b, 0x1f, 0x6e, 0x92, 0xc4, 0x07, 0x4a, 0xd1, 0x9c, 0x55, 0xe0, 0x13, 0x7a, 0x28, 0xbd, 0x46})
+	hi1, lo1 := be.Uint64(u1[:8]), be.Uint64(u1[8:])
+	type rel struct {
+		name string
+		lo2  func(hi2 uint64) uint64
+	}
+	rels := []rel{
+		{"same-lo", func(uint64) uint64 { return lo1 }},
+		{"xor-fold", func(hi2 uint64) uint64 { return hi1 ^ lo1 ^ hi2 }},
+		{"sum-fold", func(hi2 uint64) uint64 { return hi1 + lo1 - hi2 }},
+	}
+	for _, k := range append([]uint64{31, 33, 0x9e3779b9, 1099511628211}, h.CodeInts()...) {
+		k := k
+		rels = append(rels,
+			rel{fmt.Sprintf("hi*%#x^lo", k), func(hi2 uint64) uint64 { return hi1*k ^ lo1 ^ hi2*k }},
+			rel{fmt.Sprintf("hi*%#x+lo", k), func(hi2 uint64) uint64 { return hi1*k + lo1 - hi2*k }})
+	}
+	var cases []C18Case
+	for ri, r := range rels {
+		// find a second value (valid version / variant bits) in the relation, different from the first
+		for try := uint64(1); try < 4096; try++ {
+			hi2 := (hi1+try*0x0001000000010001)&^0xf000 | 0x4000
+			lo2 := r.lo2(hi2)
+			if lo2>>62 != 2 || (hi2 == hi1 && lo2 == lo1) {
+				continue
+			}
+			u2 := make([]byte, 16)
+			be.PutUint64(u2[:8], hi2)
+			be.PutUint64(u2[8:], lo2)
+			for kind := 0; kind < 4; kind++ {
+				cases = append(cases, C18Case{SPs: 1 + ri%2, Cfg: ri, Blocks: [][]byte{u1, u2, u1, u2}, Kinds: []int{kind, (kind + 1) % 4, kind, kind}})
+			}
+			break
+		}
+	}
+	// same high half: only the low half differs
+	u3 := append([]byte{}, u1...)
+	u3[15] ^= 1
+	cases = append(cases, C18Case{SPs: 1, Blocks: [][]byte{u1, u3, u1}, Kinds: []int{1, 2, 3}})
+	h.RunCases(t, "C18", cases, checkC18Related)
+}
+
+// checkC18Related is checkC18 without the "identifier repeats" rule for blocks that were deliberately repeated.
+func checkC18Related(c C18Case) h.Outcome {
+	o := checkC18(c)
+	if o.Violation != nil && o.Violation.Sig == "id-repeat" {
+		// the case replays the same 16 bytes on purpose: equal bytes give equal identifiers
+		o.Violation = nil
+	}
+	return o
 }
 
 // TestC18_GridConfigs: every combination of the optional settings x every message kind, twice each.
